@@ -211,7 +211,10 @@ pub fn execute(p: &Prog) -> Option<IppRequestResponse> {
             finish(b.build(), p.via_from)
         }
         (1, true) => {
-            if d.requested.is_empty() {
+            // no names: either public spelling of "all attributes" (the job id only selects which)
+            if d.requested.is_empty() && p.job_id % 2 == 0 {
+                finish(GetPrinterAttributes::with_attributes(uri, Vec::<String>::new()), p.via_from)
+            } else if d.requested.is_empty() {
                 finish(GetPrinterAttributes::new(uri), p.via_from)
             } else {
                 finish(GetPrinterAttributes::with_attributes(uri, &d.requested), p.via_from)
@@ -549,9 +552,37 @@ pub fn run_c10(ctx: &Ctx) {
     ctx.set_rule("proptest-generated builder programs: entry point (10 operations through IppOperationBuilder or through the public struct constructors, and the two raw constructors) x sequence of 0-5 builder calls (setters repeated, attribute/attributes mixed, 0..n requested attributes incl. exactly one and duplicates) x arguments (arbitrary UTF-8 incl. empty and long, any i32 job id, any model value as job attribute incl. the same name twice, component-generated target URIs, payload from a fragmented source), converted with into_ipp_request() or IppRequestResponse::from. Oracle: expected-request model written from the property text (own op-code table, version 1.1, positive request-id, exactly the described attributes, printer-uri judged by C13's component oracle, payload bytes), compared in canonical form and again through the reference decoder on to_bytes(). Non-trivial = >=2 calls incl. a repeated single-valued setter or a duplicate job-attribute name, or exactly one requested attribute; distinct by program hash.");
     let (shards, per) = ctx.tier.pick((16, 10000), (16, 150000));
     run_prop(ctx, "builders", shards, per, prog, judge_c10, prog_json);
+    // the same programs, several in a row on one thread with related targets
+    ctx.append_rule(" Plus program sequences: 4-12 programs run one after another on the same thread whose targets form a target history (2-4 base targets and close relatives: host/path/user-info in the other letter case, partner scheme, user name equal to the host, port or query toggled), each judged as above.");
+    let (shards, per) = ctx.tier.pick((16, 1500), (16, 25000));
+    run_prop(
+        ctx,
+        "program-sequence",
+        shards,
+        per,
+        || (uri_history(), proptest::collection::vec(prog(), 12)).prop_map(|(h, ps)| h.into_iter().zip(ps).map(|(u, mut p)| { p.uri = u; p.hostless = false; p.payload.truncate(64); p }).collect::<Vec<Prog>>()),
+        |seq: &Vec<Prog>, pr| {
+            let quiet = Probe { ctx: pr.ctx, counting: false };
+            pr.nontrivial(hash64(seq));
+            pr.label("program sequence");
+            for (i, p) in seq.iter().enumerate() {
+                pr.extra_eval(1);
+                judge_c10(p, &quiet).map_err(|f| Fail::new(format!("{}/in-sequence", f.sig), format!("program #{i} of a sequence with targets {:?}: {}", seq.iter().map(|p| p.uri.text().chars().take(80).collect::<String>()).collect::<Vec<_>>(), f.msg)))?;
+            }
+            Ok(())
+        },
+        |seq| json!({"program_sequence": seq.iter().map(prog_json).collect::<Vec<_>>()}),
+    );
 }
 
 pub fn replay_c10(ctx: &Ctx, _sub: &str, case: &Value) -> Judge {
+    if let Some(seq) = case.get("program_sequence").and_then(|s| s.as_array()) {
+        for (i, c) in seq.iter().enumerate() {
+            let p = prog_from_json(c).ok_or_else(|| Fail::new("bad-replay", "program"))?;
+            judge_c10(&p, &Probe { ctx, counting: false }).map_err(|f| Fail::new(format!("{}/in-sequence", f.sig), format!("program #{i}: {}", f.msg)))?;
+        }
+        return Ok(());
+    }
     let p = prog_from_json(case).ok_or_else(|| Fail::new("bad-replay", "program"))?;
     judge_c10(&p, &Probe { ctx, counting: false })
 }
